@@ -68,6 +68,9 @@ namespace smt
   public:
     row(lra_theory &th, const var x, lin l);
     row(const row &orig) = delete;
+#ifdef PSTLAB_ORATIO_VERIF
+    inline var get_basic_var() const noexcept { return x; }
+#endif
 
   private:
     bool propagate_lb(const var &x) noexcept; // propagates the lower bound of variable 'x' on the tableau row returning whether propagation is successful..
